@@ -1061,11 +1061,15 @@ func (e *Engine) bindParam(st *State, obj types.Object, v Value) {
 }
 
 func (e *Engine) bindResults(fr *frame, decl *ast.FuncDecl, pk *Pkg, st *State) {
-	if decl.Type.Results == nil {
+	e.bindResultsOf(fr, decl.Type, pk, st)
+}
+
+func (e *Engine) bindResultsOf(fr *frame, ft *ast.FuncType, pk *Pkg, st *State) {
+	if ft.Results == nil {
 		return
 	}
 	n := 0
-	for _, f := range decl.Type.Results.List {
+	for _, f := range ft.Results.List {
 		t := pk.Info.TypeOf(f.Type)
 		if len(f.Names) == 0 {
 			k := &synth{fmt.Sprintf("ret%d_%d", n, len(e.inlineStack))}
